@@ -426,7 +426,7 @@ def compressed_sum(mps_list, batchsize=5, temp_m_trunc=None):
             mps_queue.append(s)
         return mps_queue[0]
     else:
-        new_mps = mps_list[0].copy().canonicalise()
+        new_mps = mps_list[0].canonicalise()
         new_mps.compress(temp_m_trunc=temp_m_trunc)
         return new_mps
 
